@@ -1,6 +1,7 @@
 import GoDcp.Driver.All
 import GoDcp.Driver.Session
 import GoDcp.Driver.SessionMon
+import GoDcp.Driver.Api
 import GoDcp.Driver.Life
 
 open GoDcp.Driver
@@ -14,6 +15,7 @@ structure DState where
   sessOps : List GoDcp.Op := []
   life : GoDcp.Life.LSt := {}
   lmon : LMon := {}
+  api : ApiSt := {}
 
 /-- one protocol line: `OP[<TAB>REAL]` ↦ `MODEL<TAB>VERDICT` -/
 def handle (st : DState) (line : String) : DState × String :=
@@ -23,13 +25,22 @@ def handle (st : DState) (line : String) : DState × String :=
     | [] => ("", none)
   match toks op with
   | [] => (st, "bad-op\t-")
-  | c :: args =>
-    match sessionLine st.sess (c :: args) with
-    | some (s', out) =>
-      if c == "reset" then ({ st with sess := s', smon := {}, caseStart := {}, caseOps := [], sessStart := {}, sessOps := [] }, s!"{out}\t-") else
+  | c0 :: args0 =>
+    match apiPrepareOp st.api (c0 :: args0) with
+    | [] => (st, "bad-op\t-")
+    | c :: args =>
+    match apiLine st.api (c :: args) real with
+    | some (a', out, v) => ({ st with api := a' }, s!"{out}\t{v}")
+    | none =>
+    match sessionOrApiLine (apiPrepare st.api st.sess (c :: args)) (c :: args) with
+    | some (s', out0) =>
+      let out := apiDecorate st.api (c :: args) out0
+      let apiBefore := st.api
+      let st := { st with api := apiAfterSessionOp st.api (c :: args) st.sess s' }
+      if c == "reset" then ({ st with sess := s', smon := {}, caseStart := {}, caseOps := [], sessStart := {}, sessOps := [], api := {} }, s!"{out}\t-") else
       if c == "cfg" then ({ st with sess := s', caseStart := s', caseOps := [] }, s!"{out}\t-") else
       -- histories for the known-finding classifiers: whole case (C01), current session (C05)
-      let opO := parseOp (c :: args)
+      let opO := sessionOrApiOp (c :: args)
       let caseOps := match opO with | some o => st.caseOps ++ [o] | none => st.caseOps
       let (sessStart, sessOps) := match opO with
         | some .open => (s', [])
@@ -40,7 +51,8 @@ def handle (st : DState) (line : String) : DState × String :=
       match real with
       | none => (st1, s!"{out}\t-")
       | some r =>
-        let (m', v) := smonStep st.smon st.sess s' (c :: args) r st.caseStart caseOps sessStart sessOps
+        let (m', v0) := smonStep st.smon st.sess s' (c :: args) r st.caseStart caseOps sessStart sessOps
+        let v := apiPostVerdict apiBefore st.sess (c :: args) r v0
         ({ st1 with smon := m' }, s!"{out}\t{v}")
     | none =>
     match lifeLine st.life st.lmon (c :: args) real with
